@@ -1002,6 +1002,7 @@ def predicates(ctx: Ctx) -> None:
         if r:
             ctx.fail(r[0], f"[{name}] {r[1]}", {"spec": spec.as_dict(), "ops": _ops_json(ops), "exact": True, **r[2]})
     atomic_copies(ctx)
+    reconvergence_route(ctx)
     n = ctx.scale(25, 150) * (4 if getattr(ctx, "deep_search", False) else 1)
     for i in range(n):
         spec = rng.choice(dyadic_specs())
@@ -1096,7 +1097,29 @@ def atomic_copies(ctx: Ctx) -> None:
             return
 
 
+def reconvergence_route(ctx: Ctx) -> None:
+    """the reconvergence route of the statement: every transition state (and minimum) a re-search hands back is offered
+    to the emptied network — whichever of the other re-searches failed — so each is represented afterwards, once.  The
+    scenarios and the judge are those of C05 (scripted re-search objects substituted from outside, every failure subset
+    of up to four stored transition states)."""
+    import itertools
+    from props import c05
+    rng = ctx.rng
+    for i in range(ctx.scale(6, 30)):
+        rs = c05.gen_rescenario(rng, 4)
+        for m in itertools.product((0, 1), repeat=len(rs.research)):
+            fail = {j for j, bit in enumerate(m) if bit}
+            r = c05.check_reconverge(rs, fail, "landscape")
+            ctx.stats.case({"stream": "predicate-reconvergence-route", "ts": len(rs.research), "fail": len(fail)}, True)
+            if r:
+                ctx.fail("reconvergence:" + r[0], r[1], {"reconvergence_route": {**rs.as_dict(fail), "what": "landscape"}, **r[2]})
+                return
+
+
 def replay(ctx: Ctx, data: dict) -> bool:
+    if "reconvergence_route" in data:
+        from props import c05
+        return c05.replay(ctx, data["reconvergence_route"])
     if "failed_read" in data:
         from props import c06
         return c06.replay(ctx, data)
